@@ -118,6 +118,7 @@ class C10(Check):
         kept = []  # caller-owned data
         owned_by_caller_then_finalized = []
 
+        eng.step(kind)
         if kind in ("render", "str", "draw_still"):
             old = sys.stdout
             sys.stdout = Sink()
@@ -171,6 +172,7 @@ class C10(Check):
                 op = shape["first"] if i == 0 else eng.choice(f"op{i}", 4)
                 if it is None:
                     break
+                eng.step(("next", "seek", "close", "drop")[op])
                 if op == 0:
                     try:
                         next(it)
